@@ -1115,7 +1115,11 @@ class OdeSystem(object):
                                 self.__sol.remove_interpolant(-1)
                             # the integrator's cached end-of-step slope belongs to the rolled-back step, not to the restart point
                             self.initialise_integrator(preserve_states=True)
+                            # the short steps taken to land on the event are not carried over: the step in force stays what it
+                            # was (it is replaced below by the integrator's proposal unless this was a clamped last step)
+                            dt_in_force = self.dt
                             self.integrate(roots[-1])
+                            self.dt = dt_in_force
                             self.__int_status = 2
                         else:
                             if self.counter + len(roots) + 1 >= len(self.__y):
